@@ -633,10 +633,20 @@ package server
 //@ trusted findDefinitionTarget
 //@   effects none
 //@   ensures [commodity_named] result != nil && result.context == DefContextCommodity ==> result.name != ""
-// sortAndDedup sorts in place (sort.Slice with a comparator closure: not modelled) and keeps the first of equal neighbours.
-//@ trusted sortAndDedup
-//@   ensures len(result) <= len(locations) && (len(result) == 0 || fresh(result))
+// sortAndDedup sorts in place (sort.Slice: some permutation, the comparator is not executed) and keeps the first of equal
+// neighbours: no location is invented - stated against the slice as sort.Slice left it, which the model of sort.Slice
+// takes to be a permutation of what it held. (That none is lost was proved up to the loop invariant but is not stable
+// enough for the quick tier: undecided.)
+//@ func sortAndDedup
+//@   props C09
+//@   ensures [bounds] len(result) <= len(locations) && (len(result) == 0 || fresh(result))
+//@   ensures [C09:nothing_invented] forall k int :: {result[k]} 0 <= k && k < len(result) ==> (exists j int :: {seq(locations)[j]} 0 <= j && j < len(locations) && result[k] == seq(locations)[j])
 //@   modifies elems(locations)
+//@   loop 1 invariant 0 - 1 <= rangeindex && rangeindex <= len(locations) - 1 && len(result) <= rangeindex + 1 && (len(result) == 0 || fresh(result))
+//@   loop 1 invariant [C09:nothing_invented] forall k int :: {result[k]} 0 <= k && k < len(result) ==> (exists j int :: {seq(locations)[j]} 0 <= j && j <= rangeindex && result[k] == seq(locations)[j])
+//@   loop 1 exhaustive
+//@   loop 1 modifies nothing
+//@   loop 1 decreases len(locations) - rangeindex
 
 // References to an account. Within every journal of the tree exactly the occurrences add a location: each account
 // directive that declares the name (when declarations are asked for) and each posting whose account is the name, in
